@@ -203,6 +203,10 @@ func (w *world) opParam(op kernel.Op) {
 		apply = func(w *world) { w.aggEnabled = v }
 	case 1:
 		d := baseDenoms[kernel.Mod(op.Arg(1), len(baseDenoms))]
+		if op.Arg(1)%7 == 6 {
+			d = node.Denom // transfers of the staking / deposit coin itself are switched off (or on again)
+			w.rec.Fault("gov.send_disabled_for_staking_coin")
+		}
 		en := op.Arg(2)%2 == 0
 		ch = paramproposal.NewParamChange(banktypes.ModuleName, "SendEnabled", fmt.Sprintf(`[{"denom":"%s","enabled":%v}]`, d, en))
 		what = fmt.Sprintf("param bank.SendEnabled %s=%v", d, en)
